@@ -45,6 +45,8 @@ type Case struct {
 	Plan  Plan           `json:"plan"`
 	Salt  uint64         `json:"salt"`
 	Heavy bool           `json:"heavy,omitempty"`
+	// Pressure marks C14's padding-pressure class (labelling only).
+	Pressure bool `json:"pressure,omitempty"`
 }
 
 var mtus = []int{0, 1280, 1281, 1399, 1400, 1499, 1500}
